@@ -65,11 +65,14 @@ fn c02_direct<const N: usize>() {
     let x: f64 = kani::any(); // every f64, NaN and infinities included (C16: no panic)
     unsafe { EVAL_CALLS = 0; }
     let r = pw.evaluate(x);
-    let want = sel(&segs, x);
-    assert!(r == (want as u32 + 1) as f64, "[spec] selected piece is the first with end > x, else the last");
-    unsafe {
-        assert!(EVAL_CALLS == 1, "[spec] exactly one piece is evaluated");
-        assert!(same_bits(f64::from_bits(LAST_ARG), x), "[spec] the piece is evaluated at x itself");
+    if !x.is_nan() {
+        // C02 speaks about non-NaN x only; for NaN the call must merely return (C16)
+        let want = sel(&segs, x);
+        assert!(r == (want as u32 + 1) as f64, "[spec] selected piece is the first with end > x, else the last");
+        unsafe {
+            assert!(EVAL_CALLS == 1, "[spec] exactly one piece is evaluated");
+            assert!(f64::from_bits(LAST_ARG).to_bits() == x.to_bits(), "[spec] the piece is evaluated at x itself");
+        }
     }
 }
 #[kani::proof] #[kani::unwind(3)] fn c02_direct_n1() { c02_direct::<1>() }
@@ -77,6 +80,7 @@ fn c02_direct<const N: usize>() {
 #[kani::proof] #[kani::unwind(5)] fn c02_direct_n3() { c02_direct::<3>() }
 #[kani::proof] #[kani::unwind(6)] fn c02_direct_n4() { c02_direct::<4>() }
 #[kani::proof] #[kani::unwind(7)] fn c02_direct_n5() { c02_direct::<5>() }
+#[kani::proof] #[kani::unwind(8)] fn c02_direct_n6() { c02_direct::<6>() }
 
 #[kani::proof]
 #[kani::should_panic]
